@@ -39,6 +39,7 @@ static_assert(!std::is_move_assignable<stream>::value, "[C05 w3] a log statement
 static_assert(std::is_move_constructible<stream>::value, "[C05 w4] ownership moves along the << chain");
 static_assert(!std::is_default_constructible<stream>::value, "[C05 w5] a statement object always starts from a tag");
 
+#ifdef VERIF_HAS_GEN_SEQ // the library's own index-sequence generator (absent when it uses std::index_sequence, which is trusted)
 using nitro::lang::helper::gen_seq;
 using nitro::lang::helper::seq;
 static_assert(std::is_base_of<seq<>, gen_seq<0>>::value, "[C05 w6] gen_seq<0> is seq<>");
@@ -50,6 +51,7 @@ static_assert(std::is_base_of<seq<0, 1, 2, 3, 4>, gen_seq<5>>::value, "[C05 w11]
 static_assert(std::is_base_of<seq<0, 1, 2, 3, 4, 5>, gen_seq<6>>::value, "[C05 w12] gen_seq<6> is seq<0..5>");
 static_assert(std::is_base_of<seq<0, 1, 2, 3, 4, 5, 6>, gen_seq<7>>::value, "[C05 w13] gen_seq<7> is seq<0..6>");
 static_assert(std::is_base_of<seq<0, 1, 2, 3, 4, 5, 6, 7>, gen_seq<8>>::value, "[C05 w14] gen_seq<8> is seq<0..7>");
+#endif
 
 using F = nitro::log::filter::severity_filter<record>;
 using nitro::log::filter::not_filter;
